@@ -123,11 +123,24 @@ def hReaddir (h : Handle) (count : Int) : M (List Info) := do
   let hs ← list h.path count
   pure (hs.map Info.ofHdr)
 
-/-- `Open; ReadAll; Close` on a path -/
+/-- the header of the record a path's row points at -/
+def fetchedHeader (f : FsCfg) (path : Name) : M (Option Hdr) := do
+  let src := trimSuffix path [slash]
+  match ← M.attempt (M.idx (·.getHeader src)) with
+  | .ok row =>
+    let w ← M.get
+    pure ((fetchAt f.c w.tape row.recd row.blk).map (·.1))
+  | .error _ => pure none
+
+/-- `Open; ReadAll; Close` on a path.  When the row's position designates a *directory* record
+    (only possible once positions are wrong, finding F20) `Fetch` returns without closing the
+    pipe: the read never ends while holding the filesystem lock. -/
 def cat (f : FsCfg) (env : Env) (name : Name) : M Bytes := do
   let o ← fsOpen f env name
   if !o.flags.read then M.fail .permission else
   if o.hdr.typeflag == tfDir then M.fail .isDirectory else
-  restoreContent f o.path
+  match ← fetchedHeader f o.path with
+  | some h => if h.typeflag == tfDir then M.wedge .stuck else restoreContent f o.path
+  | none => restoreContent f o.path
 
 end Stfs
